@@ -117,7 +117,13 @@ func (d *HTTPProxyDialer) DialContextR(ctx context.Context, network, addr string
 		return nil, nil, err
 	}
 	if d.proxyURL.Scheme == "https" {
-		conn = tls.Client(conn, d.tlsConfig)
+		tconn := tls.Client(conn, d.tlsConfig)
+		// Handshake now, under ctx. Left to the first write it would not be bound by the timeout.
+		if err := tconn.HandshakeContext(ctx); err != nil {
+			conn.Close()
+			return nil, nil, err
+		}
+		conn = tconn
 	}
 
 	pbw := bufio.NewWriterSize(conn, 512)
